@@ -56,6 +56,14 @@ type History struct {
 	LnAccepted, LnErrors, LnCloseCalls, LnLateOffers int
 	DebugBytes                                       int64
 	Races                                            int
+
+	AutoParks   []AutoPark // parks at inserted yield points (instr tier)
+	AutoSkipped int        // inserted yield points passed with a mutex of the library held (never parked at)
+}
+
+type AutoPark struct {
+	At, Until int64
+	Site      string
 }
 
 type logRec struct {
@@ -214,6 +222,7 @@ func runScenarioIn(t *testing.T, sc *Scenario, h *History) {
 			if sc := simConnOf(c.Conn()); sc != nil {
 				sc.owner = c
 			}
+			autoRegisterConn(c)
 		}
 		defer func() { smtp.VerifNewConn = nil }()
 		smtp.VerifYield = func(point string) {
@@ -243,6 +252,7 @@ func runScenarioIn(t *testing.T, sc *Scenario, h *History) {
 			sleepClass(40+int(yn.Add(1))%8, yp)
 		}
 		defer func() { smtp.VerifYield = nil }()
+		defer installAutoYield(sc.AutoYield, h)()
 	}
 	synctest.Test(t, func(t *testing.T) {
 		baseline := runtime.NumGoroutine()
@@ -250,6 +260,7 @@ func runScenarioIn(t *testing.T, sc *Scenario, h *History) {
 		var seq atomic.Int64
 
 		srv := smtp.NewServer(be)
+		autoRegisterServer(srv)
 		srv.Domain = "sim.test"
 		srv.LMTP = sc.Srv.LMTP
 		srv.MaxLineLength = sc.Srv.MaxLine
